@@ -639,8 +639,11 @@ class Simplex:
             flag = False
             for v in basic_vars:
                 if self.bound[v][0] > self.mapping[v] or self.bound[v][1] < self.mapping[v]:
+                    # Bland's rule: repair the smallest violated basic variable (and below, pivot
+                    # with the smallest suitable non-basic variable); otherwise check() can cycle
                     xi = v
                     flag = True
+                    break
             if not flag:
                 return SAT
             
